@@ -40,6 +40,8 @@ def run(repo, rep):
     _truth_rule(repo, rep, 'C13', 'C13.Z4')
     from ..api_pitfalls import attribute_rule as _attribute_rule
     _attribute_rule(repo, rep, 'C13', 'C13.Z5')
+    from ..api_pitfalls import pairing_rule as _pairing_rule
+    _pairing_rule(repo, rep, 'C13', 'C13.Z6')
     model = FsmModel(repo)
     pm = ProviderModel(repo, model)
     rep.trust('PS3.8 Table 9-10 rows Evt17/Evt18 as transcribed; CPython semantics of threading.Event, select, socket')
